@@ -41,7 +41,7 @@ func vtaCrossCheck(repo string, quick *ir.Program, F *rules.Facts) (checked int,
 	mine := map[key]map[string]bool{}
 	for _, fn := range quick.Funcs {
 		for _, ci := range rules.CallsOf(fn) {
-			if ci.Common().IsInvoke() || ci.Common().StaticCallee() != nil {
+			if ci.Common().IsInvoke() || ir.Callee(ci.Common()) != nil {
 				continue
 			}
 			k := key{ir.FuncName(fn), quick.Pos(ci.Pos())}
@@ -61,7 +61,7 @@ func vtaCrossCheck(repo string, quick *ir.Program, F *rules.Facts) (checked int,
 			continue
 		}
 		for _, e := range node.Out {
-			if e.Site == nil || e.Site.Common().IsInvoke() || e.Site.Common().StaticCallee() != nil {
+			if e.Site == nil || e.Site.Common().IsInvoke() || ir.Callee(e.Site.Common()) != nil {
 				continue
 			}
 			if !own(e.Callee.Func) {
